@@ -226,7 +226,7 @@ func c15ChainExec(c histCase, x *pbt.Ctx) error {
 	if err != nil {
 		return fmt.Errorf("HARNESS: cannot start node: %v", err)
 	}
-	defer n.Stop()
+	defer n.Close()
 	votedSets := 0
 	for i := 1; i < len(w.Blocks); i++ {
 		if _, err := n.Deliver(i); err != nil {
